@@ -13,20 +13,25 @@ from harness import util
 
 THEOREMS = ['C01_sht_gram', 'C01_sht_roundtrip', 'C01_sht_roundtrip_bandlimited', 'C01_masked_inert',
             'C01_sht_batch', 'C01_sht_integral', 'C01_fast_roundtrip', 'C01_fast_padding_inert',
-            'C01_sht_integral_R', 'C01_normalization_literal', 'C01_grid_table_resolves',
+            'C01_sht_integral_R', 'C01_fourier_orth_columns_R', 'C01_fourier_orth_R', 'C01_sht_roundtrip_fourier_R',
+            'C01_fourier_aliasing_R', 'C01_normalization_literal', 'C01_grid_table_resolves',
             'C01_hyps_satisfiable']
 LEVEL = 'proof'
 LEVEL_TEXT = ('machine-checked theorems (Coq) for every field, all sizes M,L,I,J (and paddings), all tables and ALL '
               'spectral inputs: analysis(synth x) is exactly the Gram operator of the tables applied to x; under the '
               'named table hypotheses it is mask*x (full and band-limited form), masked coefficients are inert, '
               'integrate(synth x) = r^2 sqrt(4 pi) x00 (R instance), same for the fast layout with arbitrary zero '
-              'padding; the configuration quantifier is explored: the table hypotheses are re-checked numerically on '
-              'the implementation\'s own tables for every explored grid')
-LEVEL_NOTE = ('theorems are about the Gallina models Model/SHT.v, Model/SHTFast.v (all fields, sizes, tables, inputs); '
-              'NOT proved: that scipy\'s nodes/weights are Gauss rules and that the Legendre recurrence is orthonormal - '
-              'these enter as named hypotheses (H_fourier_orth, H_legendre_orth(_deg), H_p_support, H_f0, H_p00, '
-              'H_weights) checked as table obligations per explored configuration; model tied to the code by '
-              'differential correspondence on one-hot and dense spectra')
+              'padding. The Fourier half of the orthonormality is PROVED over the reals for the closed form of '
+              'fourier.real_basis / quadrature_nodes (every longitude offset, every M >= 1, every I >= 2M-1; exact '
+              'condition: wavenumber sum of the two columns < I; aliasing counter-example for I < 2M-1), the closed '
+              'form is tied to basis.f by correspondence; the Legendre / Gauss half remains a table obligation '
+              're-checked numerically on the implementation\'s own tables for every explored grid')
+LEVEL_NOTE = ('theorems are about the Gallina models Model/SHT.v, Model/SHTFast.v, Model/FourierR.v (all fields, sizes, '
+              'tables, inputs; Fourier orthonormality over R with stdlib cos/sin/PI); NOT proved: that scipy\'s latitude '
+              'nodes/weights are Gauss rules and that the Legendre recurrence is orthonormal - these enter as named '
+              'hypotheses (H_legendre_orth(_deg), H_p_support, H_p00, H_weights) checked as table obligations per explored '
+              'configuration; H_fourier_orth and H_f0 are theorems for the closed form AND still checked numerically on '
+              'basis.f; model tied to the code by differential correspondence on one-hot and dense spectra')
 TECHNIQUE = 'Coq proof (generic field) + extraction-based differential correspondence + table obligations'
 
 SPACINGS = ['gauss', 'equiangular', 'equiangular_with_poles']
@@ -191,6 +196,9 @@ def generate(ctx):
     rng = ctx.rng
     cfgs = small_configs(rng, ctx.tier)
     yield 'factory', {}
+    for (M, I) in ([(1, 1), (1, 4), (2, 3), (2, 2), (3, 5), (3, 8), (5, 9), (5, 16), (4, 4)] if ctx.tier == 'quick' else
+                   [(1, 1), (1, 4), (2, 3), (2, 2), (3, 5), (3, 8), (5, 9), (5, 16), (4, 4), (8, 25), (12, 37), (22, 64), (32, 64), (43, 128)]):
+        yield 'fourier_closed_form', {'M': M, 'I': I}
     for n, c in enumerate(cfgs):
         ctx.count('spacing:' + c['spacing']); ctx.count(f"M={c['M']}")
         seed = int(rng.integers(0, 2 ** 31))
@@ -497,4 +505,36 @@ def r_transforms(ctx, a):
     ctx.count('transforms:' + tag)
 
 
-RUNNERS = {'factory': r_factory, 'layout': r_layout, 'tables': r_tables, 'transforms': r_transforms}
+def r_fourier_closed_form(ctx, a):
+    """Model/FourierR.v (the closed form whose orthonormality is proved over R) against fourier.real_basis /
+    real_basis_with_zero_imag / quadrature_nodes: the model receives numpy's cos(k x_i), sin(k x_i) tables and the
+    two square roots and must reproduce the column layout and normalisation of basis.f."""
+    jax, jnp, sh, fourier, al = J_()
+    M, I = a['M'], a['I']
+    x, wq = fourier.quadrature_nodes(I)
+    ctx.exact('quadrature_nodes: x_i = 2 pi i / I, weight 2 pi / I',
+              [bool(np.allclose(x, 2 * np.pi * np.arange(I) / I, rtol=0, atol=1e-15)), float(wq)], [True, 2 * np.pi / I])
+    k = np.arange(M)[:, None]
+    c = np.cos(k * x[None, :]); s = np.sin(k * x[None, :])
+    consts = [float(np.sqrt(2 * np.pi)), float(np.sqrt(np.pi))]
+    f = fourier.real_basis(wavenumbers=M, nodes=I)
+    ctx.corr('fourier.real_basis = closed form [const, cos 1, sin 1, cos 2, ...]/sqrt(pi)', f,
+             ctx.model.call(22, [M, I], [consts, c.ravel(), s.ravel()]), scale=1.0)
+    fz = fourier.real_basis_with_zero_imag(wavenumbers=M, nodes=I)
+    ctx.corr('fourier.real_basis_with_zero_imag = closed form [const, 0, cos 1, sin 1, ...]', fz,
+             ctx.model.call(23, [M, I], [consts, c.ravel(), s.ravel()]), scale=1.0)
+    g = make_grid(dict(M=M, L=M, I=I, J=max(M, 2), spacing='gauss', offset=0.0, radius=1.0, impl='real'))
+    ctx.exact('basis.f is fourier.real_basis', bool(np.array_equal(tables(g)[0], f)), True)
+    # the proved statement evaluated on the implementation: orthonormal iff wavenumber sums stay below I
+    G = float(wq) * f.T @ f
+    mab = (np.arange(2 * M - 1) + 1) // 2
+    ok_pairs = (mab[:, None] + mab[None, :]) < I
+    err = np.abs(G - np.eye(2 * M - 1))
+    ctx.oracle('Fourier columns orthonormal for every pair with |m(a)|+|m(b)| < I (the proved condition)',
+               bool((err[ok_pairs] <= 2.0 ** -40 * 8).all()), float(err[ok_pairs].max()) if ok_pairs.any() else 0.0)
+    ctx.count('fourier:I>=2M-1' if I >= 2 * M - 1 else 'fourier:aliasing(I<2M-1)')
+    if I < 2 * M - 1:
+        ctx.count('fourier:aliased pairs with Gram error > 0.1', int((err[~ok_pairs] > 0.1).sum()))
+
+
+RUNNERS = {'fourier_closed_form': r_fourier_closed_form, 'factory': r_factory, 'layout': r_layout, 'tables': r_tables, 'transforms': r_transforms}
